@@ -4,9 +4,12 @@ import (
 	"bytes"
 	"fmt"
 	"strings"
+	"sync"
 	"testing"
 	"time"
 
+	"github.com/inbucket/inbucket/v3/pkg/extension"
+	"github.com/inbucket/inbucket/v3/pkg/extension/event"
 	"pgregory.net/rapid"
 	"verif/harness/hx"
 )
@@ -385,13 +388,149 @@ var propParallel = hx.Prop[PCase]{
 	},
 }
 
-func TestProp(t *testing.T)    { prop.Check(t); propParallel.Check(t) }
-func TestRegress(t *testing.T) { prop.Regress(t); propParallel.Regress(t) }
+// ---- limits: the same accounting when the store has a cap and a size limit ----
+
+// LCase: single-recipient transactions of given body sizes into three mailboxes of a memory
+// store with a per-mailbox cap and a total size limit.
+type LCase struct {
+	Cap   int      `json:"cap"`
+	MaxKB int      `json:"maxkb"`
+	Txns  [][2]int `json:"txns"` // (mailbox index, body size)
+}
+
+var propLimits = hx.Prop[LCase]{
+	ID: pid, Name: "limits",
+	Rule: "memory store with cap {0,2,3} and size limit {0,2,4} KiB; 8-60 SMTP transactions with one recipient each (3 mailboxes, bodies 0-1200 bytes); " +
+		"after every acknowledged transaction the mailboxes must hold exactly what the documented limits leave of the deliveries so far (the cap's " +
+		"oldest-first eviction in the recipient's mailbox, then the globally oldest while the total exceeds the limit; ids from the stored events, sizes as the " +
+		"stored messages report them): the recipient gains its message and no other mailbox changes except by those rules; non-trivial = both limits set and at least five " +
+		"cap evictions happened; distinct = distinct case JSON",
+	Quick: 60, Thorough: 600,
+	Gen: func(t *rapid.T) LCase {
+		c := LCase{Cap: rapid.SampledFrom([]int{0, 2, 2, 3}).Draw(t, "cap"), MaxKB: rapid.SampledFrom([]int{0, 2, 4, 4}).Draw(t, "maxkb")}
+		n := rapid.IntRange(8, 60).Draw(t, "n")
+		for i := 0; i < n; i++ {
+			c.Txns = append(c.Txns, [2]int{rapid.SampledFrom([]int{0, 0, 0, 1, 2}).Draw(t, "box"), rapid.SampledFrom([]int{0, 100, 300, 600, 1200}).Draw(t, "size")})
+		}
+		return c
+	},
+	Run: func(c LCase) *hx.Outcome {
+		o := &hx.Outcome{}
+		cfg := hx.DefaultCfg()
+		cfg.Backend, cfg.Cap, cfg.MaxKB, cfg.NoHTTP = "mem", c.Cap, c.MaxKB, true
+		type sev struct {
+			box, id string
+			size    int64
+		}
+		var mu sync.Mutex
+		var stored []sev
+		cfg.PreHost = func(h *extension.Host) {
+			h.Events.AfterMessageStored.AddListener("c01-limits", func(m event.MessageMetadata) {
+				mu.Lock()
+				stored = append(stored, sev{m.Mailbox, m.ID, m.Size})
+				mu.Unlock()
+			})
+		}
+		w, err := hx.NewWorld(cfg)
+		if err != nil {
+			o.Failf(pid+":harness", "world: %v", err)
+			return o
+		}
+		defer w.Close()
+		cl, _, err := w.DialSMTP()
+		if err != nil {
+			o.Failf(pid+":harness", "dial: %v", err)
+			return o
+		}
+		defer cl.Close()
+		if r, err := cl.Cmd("EHLO c.test"); err != nil || r.Code != 250 {
+			o.Failf(pid+":harness", "EHLO %v %v", r, err)
+			return o
+		}
+		model := hx.NewModel(c.Cap, int64(c.MaxKB)*1024)
+		boxes := []string{"l0", "l1", "l2"}
+		capEvictions := 0
+		for k, x := range c.Txns {
+			box := boxes[x[0]]
+			for _, s := range []string{"MAIL FROM:<s@a.test>", "RCPT TO:<" + box + "@a.test>", "DATA"} {
+				if r, err := cl.Cmd(s); err != nil || (r.Class() != 2 && r.Code != 354) {
+					o.Failf(pid+":harness", "txn %d: %q: %v %v", k, s, r, err)
+					return o
+				}
+			}
+			data := []byte(fmt.Sprintf("Subject: limits %d\r\n\r\n%s\r\n", k, strings.Repeat("x", x[1])))
+			if r, err := cl.Data(data); err != nil || r.Code != 250 {
+				o.Failf(pid+":limits-refused", "txn %d: a %d-byte message was answered %v (err %v)", k, len(data), r, err)
+				return o
+			}
+			// the stored event tells the id and the size the store accounts for
+			var e sev
+			for i := 0; ; i++ {
+				mu.Lock()
+				n := len(stored)
+				if n > k {
+					e = stored[k]
+				}
+				mu.Unlock()
+				if n > k {
+					break
+				}
+				if i > 5000 {
+					o.Failf(pid+":limits-no-event", "txn %d: acknowledged with 250 but no stored event arrived within 5 s", k)
+					return o
+				}
+				time.Sleep(time.Millisecond)
+			}
+			if e.box != box {
+				o.Failf(pid+":limits-wrong-mailbox", "txn %d for %q produced a stored event for mailbox %q", k, box, e.box)
+				return o
+			}
+			before := len(model.List(box))
+			// the store accounts the stored source (trace headers included), which is what Size() of
+			// the stored message says; the event carries the size of the transmitted data only
+			size := e.size + 160
+			if sm, gerr := w.Store.GetMessage(box, e.id); gerr == nil && sm != nil {
+				size = sm.Size()
+			}
+			if _, ierr := model.Add(&hx.MMsg{Mailbox: box, ID: e.id, Body: make([]byte, size)}); ierr != nil {
+				o.Failf(pid+":limits-id-reuse", "txn %d: %v", k, ierr)
+				return o
+			}
+			if c.Cap > 0 && before >= c.Cap {
+				capEvictions++
+			}
+			for _, b := range boxes {
+				got, err := w.Store.GetMessages(b)
+				if err != nil {
+					o.Failf(pid+":harness", "GetMessages: %v", err)
+					return o
+				}
+				var gi, wi []string
+				for _, m := range got {
+					gi = append(gi, m.ID())
+				}
+				for _, m := range model.List(b) {
+					wi = append(wi, m.ID)
+				}
+				if strings.Join(gi, ",") != strings.Join(wi, ",") {
+					o.Failf(pid+":limits-store-differs", "[mem cap=%d maxkb=%d] after transaction %d (to %q, %d bytes of data): mailbox %q holds %v, the documented limits leave %v", c.Cap, c.MaxKB, k, box, e.size, b, gi, wi)
+					return o
+				}
+			}
+		}
+		o.NonTrivial = c.Cap > 0 && c.MaxKB > 0 && capEvictions >= 5
+		o.Class(fmt.Sprintf("cap %d maxkb %d", c.Cap, c.MaxKB))
+		return o
+	},
+}
+
+func TestProp(t *testing.T)    { prop.Check(t); propParallel.Check(t); propLimits.Check(t) }
+func TestRegress(t *testing.T) { prop.Regress(t); propParallel.Regress(t); propLimits.Regress(t) }
 func TestReplay(t *testing.T) {
 	if *hx.ReplayPath == "" {
 		t.Skip("no -replay")
 	}
-	if !prop.Replay(t, *hx.ReplayPath) && !propParallel.Replay(t, *hx.ReplayPath) {
+	if !prop.Replay(t, *hx.ReplayPath) && !propParallel.Replay(t, *hx.ReplayPath) && !propLimits.Replay(t, *hx.ReplayPath) {
 		t.Fatalf("no prop matches %s", *hx.ReplayPath)
 	}
 }
